@@ -312,7 +312,36 @@ class Check:
         self.oblige("source-guard:no Admitted/Axiom/Parameter/unsafe flags", "guard", not bad,
                     "\n".join("%s:%d: %s" % b for b in bad))
 
+    def regenerate_dependencies(self, props_rel):
+        """Every generated unit (coq/Gen/X.v) in the import closure of the Props file is regenerated from the current source on this
+        run, also when the property's own script did not list it (a proof file shared with another property may import it)."""
+        import gen
+        seen, todo, units = set(), [props_rel], set()
+        while todo:
+            rel = todo.pop()
+            if rel in seen:
+                continue
+            seen.add(rel)
+            path = os.path.join(COQ, rel)
+            if not os.path.exists(path):
+                continue
+            src = strip_coq_comments(open(path).read())
+            for m in re.finditer(r"From\s+PS\s+Require\s+(?:Import|Export)\s+(.*?)\.(?:\s|$)", src, flags=re.S):
+                for mod in m.group(1).split():
+                    parts = mod.split(".")
+                    if len(parts) == 2:
+                        if parts[0] == "Gen":
+                            units.add(parts[1])
+                        else:
+                            todo.append("%s/%s.v" % (parts[0], parts[1]))
+        done = {o["name"][len("translate:"):] for o in self.obligations if o["name"].startswith("translate:")}
+        missing = sorted(u for u in units if u not in done and u in gen.UNITS)
+        if missing:
+            for u, (ok, msg) in gen.generate_all(only=missing).items():
+                self.oblige("translate:" + u, "translate", ok, msg)
+
     def prove(self, props_rel, extra_targets=(), timeout=1500):
+        self.regenerate_dependencies(props_rel)
         """Build Props/<x>.vo (full .vo), then re-run coqc on the Props file to
         collect Print Assumptions.  One obligation per theorem."""
         props_path = os.path.join(COQ, props_rel)
